@@ -122,6 +122,65 @@ for _sfx in ("", "_async"):
     _for_node(_sfx, False, prop="C06", at_block_render=_for_block_measure)
 
 
+# ---- the same for tablerow: its cells are rendered inside iterations(length)
+
+TRNODE = "liquid.builtin.tags.tablerow_tag:TablerowNode"
+
+
+def _tablerow_node(sfx):
+    from pyvc.exec import Obligation
+
+    @contract(TRNODE + ".render_to_output" + sfx, prop="C06", name=f"TablerowNode.render_to_output{sfx}")
+    def tr(c):
+        env = mk_env(c)
+        ctx = mk_ctx(c, env, loops=c.st.alloc(HList(items=[])))
+        c.requires(c.st.deref(env).fields["context_depth_limit"].t >= 8, "context depth limit not reached")
+        items = c.seq("items")
+        it = c.st.alloc(HIter(items, z3.IntVal(0)))
+        expr = c.obj("liquid.builtin.expressions.loop:LoopExpression", "loop_expression", identifier=const("item"), iterable=c.str("iterable_text"), cols=NONE)
+        block = c.obj("liquid.ast:BlockNode", "block")
+        self = c.obj(TRNODE, "tablerow", expression=expr, block=block, token=NONE)
+        c.summary("liquid.builtin.expressions.loop:LoopExpression.evaluate" + sfx, lambda eng, st, a, k: [(st, VTuple((it, VInt(z3.Length(items)))))])
+        carry = c.st.deref(ctx).fields["loop_iteration_carry"].t
+        Lm, limited = limit_of(c, env)
+
+        def render(eng, st, a, k):
+            eng.obligations.append(Obligation("callee-pre", "cell-render:iteration-product-is-the-callers-product-times-the-number-of-items", list(st.pc), M(st, ctx) == carry * z3.Length(items), "TablerowNode cell"))
+            eng.obligations.append(Obligation("callee-pre", "cell-render:only-while-the-product-is-within-the-limit", list(st.pc), z3.Implies(limited, carry * z3.Length(items) <= U.i(Lm)), "TablerowNode cell"))
+            st.log.append(("rendered",))
+            outs = []
+            for cls in (None, "ContinueLoop", "BreakLoop", "LiquidSyntaxError"):
+                s = st.fork()
+                outs.append((s, VInt(z3.Int(f"chars_{len(st.log)}"))) if cls is None else (s, Raised(VExc(cls, (const(cls),)))))
+            return outs
+        c.summary("liquid.ast:BlockNode.render" + sfx, render)
+        c.summary("liquid.ast:Node.render" + sfx, render)
+
+        def inv(e):
+            tr_ = e.st.locals.get("tablerow")
+            if not isinstance(tr_, VRef):
+                return z3.BoolVal(False)
+            ff = e.st.deref(tr_).fields
+            pos = e.st.deref(it).pos
+            return z3.And(ff["_index"].t == pos - 1, ff["length"].t == z3.Length(items), pos >= 0, pos <= z3.Length(items), M(e.st, ctx) == carry * z3.Length(items))
+
+        def havoc(st):
+            tr_, ns = st.locals["tablerow"], st.locals["namespace"]
+            st.deref(ns).items["item"] = VU(z3.Const(f"stale_item_{len(st.pc)}", U))
+            return [(tr_, "_index"), (tr_, "_row"), (tr_, "_col"), (it, None)]
+        c.invariant(0, inv, havoc_heap=havoc)
+        c.call(ctx, c.obj("io:StringIO", "buffer", __text__=c.str("out")), self_val=self)
+        c.ensures("the-callers-product-is-restored", lambda r: M(r.st, ctx) == carry)
+        c.raises("LiquidSyntaxError", "LoopIterationLimitError")
+        c.ensures_exc("limit-error-exactly-when-the-product-would-exceed-the-limit", lambda r: z3.Implies(z3.BoolVal(r.exc.cls == "LoopIterationLimitError"), z3.And(limited, carry * z3.Length(items) > U.i(Lm))))
+        c.assume_note("the cell block is an arbitrary callee that returns, raises Break/ContinueLoop or fails with a Liquid error; LoopExpression.evaluate returns (iterator over the visited items, their number)")
+        c.replay("code", code=REPLAY)
+
+
+for _sfx in ("", "_async"):
+    _tablerow_node(_sfx)
+
+
 # ---- coupling: every repeating construct pushes its length (call-site obligations) --------
 
 RENDER_CALLS = {"render", "render_async", "render_with_context", "render_with_context_async"}
